@@ -70,10 +70,10 @@ CHECKS.update({
     "C14": {"technique": "TLA+ protocol spec V1Classifier (lazy search-set) model-checked incl. liveness + hook-event histories of concurrent calls validated by TLC with vector-clock happens-before (TraceConc) + results vs sequential results (TraceV1); Go race detector as second sensor",
             "text": "TLC explores all interleavings of 3 callers x 2 values of the repaired protocol (and refutes the check-outside-lock variant); on the real code every lock operation, access and fork is an event and TLC recomputes happens-before, rejecting the history at the first unordered conflicting access.",
             "note": "25 (150) rounds of 4 (8) callers; License with precomputed sets covered through results and the race detector."},
-    "C15": {"technique": "recorded NearestMatch/MultipleMatch answers of an archive-loaded and a directly built License validated by TLC (TraceV1 memo equality, key sets, normalised values)",
+    "C15": {"technique": "TLA+ spec V1Archive (entry pairing, RoundTrip) with every small ordered file set archived and loaded for real + recorded NearestMatch/MultipleMatch answers of an archive-loaded and a directly built License validated by TLC (TraceV1 memo equality, key sets, normalised values)",
             "text": "Seeded subsets/orderings of the shipped licenses plus synthetic files go through the real ArchiveLicenses and New(ArchiveBytes); both classifiers must hold the same keys and values and answer 16 (60) queries per round identically.",
             "note": "NearestMatch compared at or above the threshold only (undefined among ties; go-diff's 1 s deadline)."},
-    "C16": {"technique": "recorded NearestMatch/MultipleMatch calls on corpus texts and presentation variants validated by TLC (TraceV1 guards want/floor)",
+    "C16": {"technique": "TLA+ spec V1Normalize (normaliser pipeline as built; NormRecase, NormDecorate) model-checked and replayed into the real normalizeText + recorded NearestMatch/MultipleMatch calls on corpus texts and presentation variants validated by TLC (TraceV1 guards want/floor)",
             "text": "40 (178) shipped licenses x {original, upper, lower, re-flowed, decorated}: canonical name at or above the threshold (1.0 when the normalised text is equal); every MultipleMatch confidence at or above the threshold.",
             "note": "the archive is built in the check with ArchiveLicenses; sampled in quick."},
     "C17": {"technique": "TLA+ spec V1Tokens (per-rune tokenizer over byte-width classes) model-checked, every enumerated string replayed into the real Tokenize; FindPotentialMatches on all low-vocabulary pairs validated by TLC (TraceV1.RangesOK)",
